@@ -280,10 +280,11 @@ FN_NAMES = None
 
 def fn_names():
     # names only (cheap, no xrspatial import): keep in sync with _funcs.build_funcs — asserted in setup()
-    return ["slope", "aspect", "curvature", "hillshade", "focal.mean", "focal.apply", "focal.focal_stats", "focal.hotspots",
+    return ["slope", "aspect", "curvature", "hillshade", "focal.mean", "focal.mean[passes=0]", "focal.mean[passes=1]",
+            "focal.apply[1x1]", "convolution_2d[1x1]", "focal.apply", "focal.focal_stats", "focal.hotspots",
             "convolution_2d", "binary", "reclassify", "quantile", "natural_breaks", "equal_interval", "gci", "nbr", "nbr2",
             "ndvi", "ndmi", "savi", "arvi", "evi", "sipi", "ebbi", "true_color", "proximity", "allocation", "direction",
-            "a_star_search", "viewshed", "regions", "zonal.stats", "zonal.stats[DataArray]", "zonal.crosstab", "zonal.apply",
+            "a_star_search", "a_star_search[start=goal]", "viewshed", "regions", "zonal.stats", "zonal.stats[DataArray]", "zonal.crosstab", "zonal.apply",
             "zonal.trim", "zonal.crop", "polygonize", "summarize_terrain", "perlin", "generate_terrain", "local.cell_stats",
             "local.combine", "local.lesser_frequency", "local.equal_frequency", "local.greater_frequency",
             "local.lowest_position", "local.highest_position", "local.popularity", "local.rank"]
